@@ -1,6 +1,6 @@
 (* Extract/ExtractC06.v — extraction of the cmap model (and the executable part of the
    specification used by the judge: spec_find_good) to OCaml.  ExtrOcamlBasic only; Z/positive/nat stay Coq's inductives. *)
-From AV Require Import Base.Prelude Gen.MacRomanTables Gen.CmapPrefs Model.MacRoman Model.Cmap Model.CmapSpec.
+From AV Require Import Base.Prelude Gen.MacRomanTables Gen.CmapPrefs Model.MacRoman Model.MacRomanRef Model.Cmap Model.CmapSpec.
 Require Import ExtrOcamlBasic.
 Extraction Language OCaml.
 
@@ -16,4 +16,4 @@ Extraction "../ocaml/c06/model.ml"
   parse map_glyph owned_map_glyph mappings
   parse_cmap find_good_cmap_subtable charmap_info font_lookup
   char_to_macroman macroman_to_char
-  spec_find_good.
+  spec_find_good macroman_ref.
